@@ -16,7 +16,7 @@ def imp(ids):
     os.makedirs(BASE, exist_ok=True)
     for pid in ids:
         src = f"/tmp/refac/{pid}/out"
-        for k in (1, 2, 3, 4, 5, 6, 7, 8, 9, "a", "b", "c", "d", "e", "f", "g"):
+        for k in (1, 2, 3, 4, 5, 6, 7, 8, 9, "a", "b", "c", "d", "e", "f", "g", "h", "i"):
             p, d, m = (os.path.join(src, f"{n}{k}.{e}") for n, e in (("patch", "diff"), ("equiv", "py"), ("meta", "json")))
             if not (os.path.exists(p) and os.path.exists(d)):
                 continue
